@@ -406,8 +406,80 @@ def eval_rules(pred, name, ty, schema, table, reflected=None, has_ct=None, is_ob
     return bool(pred["default"])
 
 
+def _contents_match(r, cols, n_idx):
+    """the part of a rule that looks INTO a table object: its columns / indexes"""
+    if r.get("hasColumn") is not None and r["hasColumn"] not in cols:
+        return False
+    if r.get("lacksColumn") is not None and r["lacksColumn"] in cols:
+        return False
+    if r.get("minCols") is not None and len(cols) < r["minCols"]:
+        return False
+    if r.get("hasIndex") is not None and (n_idx > 0) != r["hasIndex"]:
+        return False
+    return True
+
+
+CONTENT_KEYS = ("hasColumn", "lacksColumn", "minCols", "hasIndex")
+
+
+def is_content_rule(r):
+    return any(r.get(k) is not None for k in CONTENT_KEYS)
+
+
+def expand_pred(pred, conn_desc, meta_desc):
+    """content rules (verdict depends on what a `table` object holds) rewritten, for the model, into rules on
+    (name, schema, reflected) computed from the REAL tables: the reflected table as the database describes it for
+    reflected=True, the model's table for reflected=False - not from whatever object the hook was handed"""
+    if not any(is_content_rule(r) for r in pred["rules"]):
+        return pred
+    rules = []
+    for r in pred["rules"]:
+        if not is_content_rule(r):
+            rules.append(r)
+            continue
+        for flag, side in ((True, conn_desc), (False, meta_desc)):
+            if r.get("reflected") is not None and r["reflected"] != flag:
+                continue
+            for t in side:
+                if _contents_match(r, t["cols"], len(t["idxs"])):
+                    e = {k: v for k, v in r.items() if k not in CONTENT_KEYS}
+                    e.update({"ty": "table", "name": t["name"], "reflected": flag})
+                    if t["schema"] is None:
+                        e["schemaIsNone"] = True
+                    else:
+                        e["schema"] = t["schema"]
+                    rules.append(e)
+    return {"rules": rules, "default": pred["default"]}
+
+
 def make_obj_callable(pred, calls):
+    def content_ok(r, obj, type_):
+        if not is_content_rule(r):
+            return True
+        if type_ != "table":
+            return False
+        return _contents_match(r, [c.name for c in obj.c], len(obj.indexes))
+
     def include_object(obj, name, type_, reflected, compare_to):
+        if any(is_content_rule(r) for r in pred["rules"]):
+            # the verdict looks at the object itself: first matching rule, content conditions evaluated on `obj`
+            if type_ == "table":
+                tname, schema = obj.name, obj.schema
+            else:
+                tb = getattr(obj, "table", None)
+                if tb is None:
+                    tb = getattr(obj, "parent", None)
+                tname, schema = tb.name, tb.schema
+            nm = None if name is None else str(name)
+            v = bool(pred["default"])
+            for r in pred["rules"]:
+                if content_ok(r, obj, type_) and _rule_matches(
+                        {k: x for k, x in r.items() if k not in CONTENT_KEYS}, nm, type_, schema, str(tname), bool(reflected),
+                        compare_to is not None, True):
+                    v = bool(r["verdict"])
+                    break
+            calls.append(("obj", nm, type_, bool(reflected), compare_to is not None, schema, str(tname), v))
+            return v
         if type_ == "table":
             tname, schema = obj.name, obj.schema
         else:
@@ -459,7 +531,8 @@ def gen_pred(rng, pair, is_obj):
     uni = universe(pair)
     tnames = sorted({t["name"] for s in ("conn", "meta") for t in pair[s]})
     fam = rng.choice(["all", "type", "prefix", "flag" if is_obj else "schema", "table" if is_obj else "qualified", "table", "truth",
-                      "truth", "mixed", "mixed"] + (["oschema"] if is_obj and "s2" in pair["schemas"] else []))
+                      "truth", "mixed", "mixed"] + (["oschema"] if is_obj and "s2" in pair["schemas"] else [])
+                     + (["contents", "contents"] if is_obj else []))
     rules = []
     default = True
     if fam == "type":
@@ -484,6 +557,21 @@ def gen_pred(rng, pair, is_obj):
         else:
             r["name"] = "s2"
         rules.append(r)
+    elif fam == "contents":
+        # "never touch tables that hold column X / have an index / have many columns": looks at the table object itself
+        colnames = sorted({c["name"] for side in ("conn", "meta") for t in pair[side] for c in t["cols"] if c["name"] != "id"})
+        for _ in range(rng.randint(1, 2)):
+            r = {"ty": "table", "verdict": False}
+            k = rng.choice(["hasColumn", "hasColumn", "lacksColumn", "minCols", "hasIndex"])
+            if k in ("hasColumn", "lacksColumn"):
+                r[k] = rng.choice(colnames) if colnames else "id"
+            elif k == "minCols":
+                r[k] = rng.choice([2, 3, 4])
+            else:
+                r[k] = rng.random() < 0.7
+            if rng.random() < 0.4:
+                r["reflected"] = rng.random() < 0.7
+            rules.append(r)
     elif fam == "oschema":
         # objects of one schema (the default one or the attached one), optionally of one type
         r = {"verdict": False}
